@@ -298,12 +298,20 @@ theorem origin_header_bytes_gate (H : Bytes → Req → σ → σ) (mux : Bytes 
       · have := digit_ne (hd b hb)
         refine ⟨?_, ?_, this.2.1, ?_⟩ <;> intro e <;> subst e <;> revert hb <;> intro hb <;>
           exact absurd (hd _ hb) (by decide)
+  have hctl : ∀ b ∈ name ++ colon :: ds, isCtlB b = false := by
+    intro b hb
+    rcases List.mem_append.1 hb with hb | hb
+    · exact name_not_ctl b (hname b hb)
+    · simp only [List.mem_cons] at hb
+      rcases hb with hb | hb
+      · subst hb; decide
+      · exact digit_not_ctl b (hd b hb)
   have hurl : getOrigin r = ⟨true, asciiLower sch, name ++ colon :: ds⟩ := by
     have hne : r.origin ≠ [] := by rw [horigin]; cases sch with
       | nil => exact absurd rfl hsne
       | cons x xs => simp
     unfold getOrigin
-    rw [if_neg hne, hparsed, horigin, urlParse_scheme_authority sch _ hsch hsne hauth,
+    rw [if_neg hne, hparsed, horigin, urlParse_scheme_authority sch _ hsch hsne hauth hctl,
       parseHost_name_port name ds hname hnne hd]
   apply origin_gate H mux h idx fuel r s he
   rintro ⟨_, a, ha, _, hhost⟩
@@ -661,6 +669,11 @@ example : gate (newAdminHandler exCfg exAddr false exPats) exCsrf = .refuse .ori
 example : (serveReal count (newAdminHandler exCfg exAddr false exPats) exIdx 3 exGood 0).cors = 1 ∧
     (serveReal count (newAdminHandler exCfg exAddr false exPats) exIdx 3 { exGood with method := sOPTIONS } 0).cors = 2 := by decide
 -- origin_header_bytes_gate: Origin: http://evil.com:8080 — and the model of url.Parse on the usual suspects
+example : urlParse (str "http://h%C3%A9.example") = ⟨true, str "http", [104, 195, 169] ++ str ".example"⟩
+    ∧ urlParse (str "http://[fe80::1%25eth0]:80/x") = ⟨true, str "http", str "[fe80::1%eth0]:80"⟩
+    ∧ (urlParse (str "http://h%41")).ok = false ∧ (urlParse (str "%zz")).ok = false
+    ∧ (urlParse (str "http://h/p#f%z")).ok = false ∧ (urlParse (str "x:%zz")).ok = true
+    ∧ (urlParse [104, 1]).ok = false := by decide
 example : urlParse (str "http://evil.com:8080") = ⟨true, str "http", str "evil.com:8080"⟩
     ∧ urlParse (str "HTTPS://localhost:2019/p?q#f") = ⟨true, str "https", str "localhost:2019"⟩
     ∧ urlParse (str "http://user@localhost:2019@evil.com") = ⟨true, str "http", str "evil.com"⟩
